@@ -46,11 +46,11 @@ def res_bool(f):
 class Bench:
     """real versions of one scheme addressed by rank"""
 
-    def __init__(self, name, rng, size=16, need_hash=True):
+    def __init__(self, name, rng, size=16, need_hash=True, respell=0.3):
         self.name = name
         self.cls = S.vclass(name)
         # need_hash=False: members whose hash disagrees with == stay in (for properties that do not speak about hashing)
-        self.pool = pools.build_pool(name, rng, size=size, need_hash=need_hash)
+        self.pool = pools.build_pool(name, rng, size=size, need_hash=need_hash, respell=respell)
         self.rng = rng
         self.rclass = S.rclass(name) or _generic_range_for(self.cls)
 
@@ -122,6 +122,29 @@ def parse_cons_answer(ans):
     return ("ok", out)
 
 
+def real_cons_variants(bench, cons, m, cap=4):
+    """for a pattern in which a rank occurs again: one list of constraint objects per spelling of the repeated
+    version that the pool knows (at most `cap`)"""
+    first = {}
+    rep = None
+    for i, (c, r) in enumerate(cons):
+        if c == "star":
+            continue
+        if r in first:
+            rep = i
+            break
+        first[r] = i
+    if rep is None:
+        return [real_cons(bench, cons, m)]
+    out = []
+    base = m[cons[rep][1]]
+    for e in [x for x in bench.spellings(base) if x[1] is not base[1]][:cap] or [base]:
+        objs = [bench.con(c, None if c == "star" else m[r][1]) for c, r in cons]
+        objs[rep] = bench.con(cons[rep][0], e[1])
+        out.append(objs)
+    return out
+
+
 def real_cons(bench, cons, m, respell=None):
     """constraint objects for a rank pattern under mapping m (rank -> (text, version)); with `respell`
     (an rng) a rank that occurs again is written in another spelling of the same version when there is one"""
@@ -190,3 +213,33 @@ def all_patterns(n):
 
 def sorted_cons(p):
     return [(c, 2 * (i + 1)) for i, c in enumerate(p)]
+
+
+SHARED_TEXTS = ["1.0.0", "1.0.0-alpha", "1.0", "1.0.0-1", "1.0.0a", "1.0.0.1", "2.0.0", "1.0.0+1", "1.0.0~rc1", "1.0.0_p1",
+                "1.0.0-beta", "0.9", "1.0.0-rc1", "1.0.1", "1.0a1", "3.0.rc1"]
+
+
+def cross_tables(need_hash=True):
+    """for every scheme: the SHARED_TEXTS it accepts, ranked by its own order (dense ranks) — the same texts are
+    ordered differently by different schemes and belong to different classes, which is what anything that
+    remembers a text between calls gets wrong"""
+    from harness import pools
+    tables = {}
+    for name in S.ALL:
+        p = pools.Pool(name, need_hash)
+        objs = {}
+        for t in SHARED_TEXTS:
+            try:
+                v = S.make(name, t)
+            except Exception:  # noqa: BLE001
+                continue
+            if p.insert(t, v):
+                objs[t] = v
+        rk = {}
+        for i, cl in enumerate(p.classes):
+            for t, _v in cl:
+                if t in objs:
+                    rk[t] = i
+        if len(rk) >= 3:
+            tables[name] = (rk, objs, p.hashable)
+    return tables
